@@ -21,6 +21,22 @@ ALLOWED_PASSED = {
     "BuildTool": {"fmt.Sprintf"}, "BuildTime": {"fmt.Sprintf"},
 }
 
+# the package-level variables of the linked packages as of the modelled tree (all read-only after initialisation)
+KNOWN_VARS = {
+    ("internal/command/command.go", "plum"), ("internal/command/command.go", "gold"), ("internal/command/command.go", "chartreuse"),
+    ("internal/command/command.go", "emojis"), ("internal/ebnf/parser/parser.go", "Predefs"),
+    ("internal/ebnf/parser/parsing_table.go", "terminals"), ("internal/ebnf/parser/parsing_table.go", "nonTerminals"),
+    ("internal/ebnf/parser/parsing_table.go", "productions"), ("internal/ebnf/parser/parsing_table.go", "G"),
+    ("internal/ebnf/parser/parsing_table.go", "precedences"), ("internal/ebnf/parser/spec/symbol_table.go", "terminalNames"),
+    ("internal/generate/golang/code.go", "idRegex"), ("internal/generate/golang/code.go", "builtin"),
+    ("internal/generate/golang/golang.go", "templates"), ("internal/generate/golang/golang.go", "navajoWhite"),
+    ("internal/generate/golang/golang.go", "darkOrange"), ("internal/generate/golang/golang.go", "hotPink"),
+    ("internal/generate/golang/golang.go", "orchid"), ("internal/regex/parser/parser.go", "escapedChars"),
+    ("internal/regex/parser/rune.go", "RuneClasses"),
+    ("metadata/metadata.go", "Version"), ("metadata/metadata.go", "Commit"), ("metadata/metadata.go", "Branch"),
+    ("metadata/metadata.go", "GoVersion"), ("metadata/metadata.go", "BuildTool"), ("metadata/metadata.go", "BuildTime"),
+}
+
 SPECS = [
     'grammar a;\nstart = {"x"} ["y"] {{"z"}} ("w" | "v") NUM;\nNUM = /[0-9]+/;\n',
     'grammar b;\nstart = expr;\nexpr = expr "+" term | term;\nterm = {"x" "y"} | ["z"] ID;\nID = $ID;\n',
@@ -29,7 +45,7 @@ SPECS = [
     'grammar e;\nAA = "x";\nBB = "x";\nstart = AA BB NUM;\n',
     'grammar f;\nstart = {"x"} {"x"} [{"x"}] ({"x"} | ["y"]);\n',
 ]
-PATTERNS = ["[a-z]+", "(ab|cd)*e", "[^0-9]", "\\d{2,3}", "[[:alpha:]_]\\w*", "(", "a{3,1}"]
+PATTERNS = ["[a-z]+", "(ab|cd)*e", "[^0-9]", "\\d{2,3}", "[[:alpha:]_]\\w*", "(", "a{3,1}", "a{4,2})", "[z-a", "(b{2,1}", "[a-c]+x", "\\p{Nope}x)"]
 
 CASES_V = """(* GENERATED: hashStrings of the implementation vs the FNV-1 model of Emerge/Shared.v *)
 From Coq Require Import List Bool NArith.
@@ -111,6 +127,8 @@ def check(tier):
         if pkg not in linked:
             continue
         bad = []
+        if (v["file"], v["name"]) not in KNOWN_VARS and not (v["kind"] == "value" and v["type"] in ("string", "int", "bool")):
+            bad.append("a package-level variable that the model does not know (%s): state that outlives a call" % v["type"])
         if v["writes"]:
             bad.append("written after initialisation: %s" % v["writes"][:3])
         for c in v["calls"]:
